@@ -36,3 +36,14 @@ try:
         PLANS['C03']['targets'] = list(PLANS['C03']['targets']) + ['bin/exa']
 except Exception:
     raise
+
+# C07 = hint/timer oracles over event histories (EX-A) + event-thread liveness on every back end (EX-B)
+try:
+    from vflib import plans_exb as _pb
+    if 'C07' in PLANS and not any(j['name'].startswith('c07-eventthread') for j in PLANS['C07']['jobs']):
+        PLANS['C07']['jobs'] = list(PLANS['C07']['jobs']) + _pb.C07_JOBS
+        PLANS['C07']['targets'] = list(PLANS['C07']['targets']) + ['bin/exb_tsan', 'bin/exb_asan']
+        PLANS['C07']['assumptions'] = list(PLANS['C07']['assumptions']) + _pb.ASSUME
+        PLANS['C07']['rule'] += '; event-thread part: ' + _pb.RULE
+except Exception:
+    raise
